@@ -172,14 +172,34 @@ pub fn reset_sandbox(root: &Path, fl: &Flags, spec: &str) -> bool {
     if spec == "-" {
         return true;
     }
+    // `~xx` in a path of the spec stands for the byte xx (control characters and the like cannot travel in the line protocol)
+    fn untilde(p: &str) -> PathBuf {
+        use std::os::unix::ffi::OsStrExt;
+        let b = p.as_bytes();
+        let mut out = vec![];
+        let mut i = 0;
+        while i < b.len() {
+            if b[i] == b'~' && i + 2 < b.len() {
+                let hexv = |c: u8| (c as char).to_digit(16);
+                if let (Some(h), Some(l)) = (hexv(b[i + 1]), hexv(b[i + 2])) {
+                    out.push((h * 16 + l) as u8);
+                    i += 3;
+                    continue;
+                }
+            }
+            out.push(b[i]);
+            i += 1;
+        }
+        PathBuf::from(std::ffi::OsStr::from_bytes(&out))
+    }
     for item in spec.split(',') {
         if let Some(d) = item.strip_suffix('/') {
-            if std::fs::create_dir_all(root.join(d)).is_err() {
+            if std::fs::create_dir_all(root.join(untilde(d))).is_err() {
                 return false;
             }
         } else {
             let Some((p, h)) = item.split_once('=') else { return false };
-            let path = root.join(p);
+            let path = root.join(untilde(p));
             if let Some(par) = path.parent() {
                 let _ = std::fs::create_dir_all(par);
             }
@@ -201,6 +221,13 @@ pub fn reset_sandbox(root: &Path, fl: &Flags, spec: &str) -> bool {
                     return false;
                 }
                 continue;
+            }
+            if let Some(n) = h.strip_prefix("sparse:").and_then(|x| x.parse::<u64>().ok()) {
+                // a file of n zero bytes that occupies no space (sizes beyond 4 GiB)
+                match std::fs::File::create(&path) {
+                    Ok(f) if f.set_len(n).is_ok() => continue,
+                    _ => return false,
+                }
             }
             let Some(c) = parse_content(h) else { return false };
             if std::fs::write(&path, c).is_err() {
@@ -237,6 +264,9 @@ fn listing_rec(root: &Path, d: &Path, out: &mut Vec<String>) {
             if p.is_dir() && !p.is_symlink() {
                 out.push(format!("{}/", rel));
                 listing_rec(root, &p, out);
+            } else if std::fs::metadata(&p).map(|m| m.len() > (1 << 30)).unwrap_or(false) {
+                // a sparse giant: never read it
+                out.push(format!("{}:{}:sparse", rel, std::fs::metadata(&p).map(|m| m.len()).unwrap_or(0)));
             } else {
                 let c = std::fs::read(&p).unwrap_or_default();
                 out.push(format!("{}:{}:{}", rel, c.len(), fnv(&c)));
@@ -307,7 +337,20 @@ pub fn converse(fl: &Flags, listener: SocketAddr, dgram: &[u8]) -> (String, Stri
                 peer = Some(from);
                 pending_data = Some((p, from));
             }
-            Packet::Error { .. } => r1 = format!("r1={} {}", cls(&from), show_reply(&p)),
+            Packet::Error { .. } => {
+                r1 = format!("r1={} {}", cls(&from), show_reply(&p));
+                if fl.dup > 0 {
+                    // duplicate-packets mode: a refusal is a single datagram all the same - whatever else arrives is part of the observation
+                    while let Some((q, f2, _)) = recv_packet(&sock, ms(25, 300)) {
+                        conv.push(match q {
+                            Ok(Packet::Error { code, .. }) => format!("+{}E{}", cls(&f2), err_index(&code)),
+                            Ok(other) => format!("+{}?{}", cls(&f2), show_packet(&other)),
+                            Err(()) => "+?undecodable".into(),
+                        });
+                    }
+                    have_conv = !conv.is_empty();
+                }
+            }
             other => {
                 peer = Some(from);
                 r1 = format!("r1={} {}", cls(&from), show_reply(&other));
@@ -542,7 +585,12 @@ pub fn errstop_line(toks: &[&str]) -> String {
     if toks.len() != 6 {
         return "bad-op".into();
     }
-    let (Some(root_b), Some(dgram), Some(code)) = (unhex(toks[1]), unhex(toks[4]), toks[5].parse::<u16>().ok().and_then(err_of_index)) else {
+    // `<code>` or `<code>:<n>`: the aborting ERROR carries a text of n bytes (longer than the sender's receive buffer, for one)
+    let (code_s, msg_len) = match toks[5].split_once(':') {
+        Some((c, n)) => (c, n.parse::<usize>().unwrap_or(4)),
+        None => (toks[5], 4),
+    };
+    let (Some(root_b), Some(dgram), Some(code)) = (unhex(toks[1]), unhex(toks[4]), code_s.parse::<u16>().ok().and_then(err_of_index)) else {
         return "bad-op".into();
     };
     let root = PathBuf::from(String::from_utf8(root_b).unwrap());
@@ -577,7 +625,7 @@ pub fn errstop_line(toks: &[&str]) -> String {
     let Some(from) = from else { return "first=other".into() };
     // drain the rest of the first burst, then abort
     while recv_packet(&sock, ms(15, 200)).is_some() {}
-    let e = Packet::Error { code, msg: "stop".into() };
+    let e = Packet::Error { code, msg: if msg_len == 4 { "stop".to_string() } else { "x".repeat(msg_len) } };
     sock.send_to(&e.serialize().unwrap(), from).unwrap();
     let mut after = 0usize;
     let deadline = std::time::Instant::now() + Duration::from_millis(tmo * 1000 + 600);
@@ -736,8 +784,18 @@ pub fn storm_line(toks: &[&str]) -> String {
     let nsock = if fl.many { toks.len() - 5 } else { 3 };
     let socks: Vec<UdpSocket> = (0..nsock).map(|_| bind_client(&fl)).collect();
     for (i, h) in toks[5..].iter().enumerate() {
+        // `<n>*<hex>`: the datagram n times in a row from the endpoint whose turn it is (a backlog for one transfer's endpoint)
+        let (count, h) = match h.split_once('*') {
+            Some((n, rest)) => (n.parse::<usize>().unwrap_or(1), rest),
+            None => (1, *h),
+        };
         let Some(d) = unhex(h) else { return "bad-op".into() };
-        let _ = socks[i % nsock].send_to(&d, listener);
+        for k in 0..count {
+            let _ = socks[i % nsock].send_to(&d, listener);
+            if k % 64 == 63 {
+                std::thread::sleep(Duration::from_millis(1));
+            }
+        }
         if fl.many && i % 16 == 15 {
             std::thread::sleep(Duration::from_millis(2));
         }
